@@ -39,7 +39,7 @@ memo_key_nof = partial(e4.rule_memo_key, modules=("number_ordered_form", "second
 CORE = [e1b.rule_projection_pairs, e1b.rule_scope_flags, e2c.rule_product_by_order, e2c.rule_adjoint_fill, e2c.rule_cauchy_wiring,
         e4.rule_value_preserving, tv_shipped, e9.rule_runtime_support, e9.rule_exec_scope, e9.rule_adjoint_binding, start_data_shipped, e11.rule_helpers,
         # what the series H *is*: input normalisation of symbolic / list / dict Hamiltonians (Taylor coefficients, order keys)
-        e2b.rule_taylor, e2b.rule_key_normalisation, e6.rule_subspaces_from_indices,
+        e2b.rule_taylor, e2b.rule_key_normalisation, e2b.rule_symbol_order, e6.rule_subspaces_from_indices,
         # `every Hamiltonian accepted by block_diagonalize` includes implicit mode: the exact (direct) implicit solver and the
         # projector it works with are part of what makes U†HU = H_tilde there.  The KPM solver is approximate (its accuracy and
         # convergence belong to C06 / C16 only), but how it is WIRED -- which vectors are projected out, which part is solved
@@ -147,7 +147,7 @@ prop(
 prop(
     "C07", level="other", selftest=["block_diagonalization", "second_quantization", "number_ordered_form", "algorithms"],
     rules=[main_e1, wf_main, e12.rule_operator_mode, e2b.rule_taylor, e7.rule_solve_scalar, e10.rule_binary_number_cancellation, e1b.rule_projection_pairs, e1b.rule_scope_flags,
-           e10.rule_operator_order, e10.rule_fermion_crossing, e10.rule_shift_table, e10.rule_linear_structure, e10.rule_number_operator_power, e10.rule_operator_sort_consistency,
+           e10.rule_operator_order, e10.rule_fermion_crossing, e10.rule_shift_table, e10.rule_linear_structure, e10.rule_number_operator_power, e10.rule_operator_sort_consistency, e10.rule_placeholder_tests,
            e2c.rule_product_by_order, e2c.rule_cauchy_wiring, e2c.rule_adjoint_fill, tv_shipped, e9.rule_runtime_support, e9.rule_exec_scope, e9.rule_adjoint_binding, start_data_shipped,
            e11.rule_helpers, e4.rule_loop_carried_state, e4.rule_memo_key],
     explanation=(
@@ -173,7 +173,7 @@ prop(
 prop(
     "C08", level="other", selftest=["number_ordered_form"],
     rules=[e10.rule_operator_order, e10.rule_fermion_crossing, e10.rule_shift_table, e10.rule_linear_structure, e10.rule_number_operator_power, e10.rule_operator_sort_consistency,
-           e4.rule_loop_carried_state, memo_key_nof],
+           e10.rule_placeholder_tests, e4.rule_loop_carried_state, memo_key_nof],
     explanation=(
         "Necessary conditions of faithfulness decided from number_ordered_form.py: (i) the order in which __mul__ "
         "applies the right operand's creation / annihilation operators equals the order as_expr denotes (extracted and "
@@ -250,8 +250,10 @@ prop(
 
 prop(
     "C13", level="other", selftest=["series", "block_diagonalization"],
-    rules=[e2c.rule_product_by_order, wf_all, e2b.rule_key_normalisation, e2b.rule_order_preserving_evals, e2b.rule_taylor,
-           e2c.rule_cauchy_wiring, e7b.rule_diagonal_solver, e1b.rule_projection_pairs],
+    rules=[e2c.rule_product_by_order, wf_all, e2b.rule_key_normalisation, e2b.rule_symbol_order, e2b.rule_order_preserving_evals, e2b.rule_taylor,
+           e2c.rule_cauchy_wiring, e7b.rule_diagonal_solver, e1b.rule_projection_pairs,
+           # which input term lands at which multi-order: the unpacking of block-format inputs reads the term of the requested orders
+           partial(e11.rule_helpers, sections=("unpack_blocks",))],
     explanation=(
         "Narrow claim: order components are handled uniformly and split exactly (product_by_order rules), every DSL "
         "summand is a rational multiple of exactly one series/product reference under linear scope functions (element n "
@@ -264,7 +266,7 @@ prop(
 
 prop(
     "C14", level="other", selftest=["block_diagonalization"],
-    rules=[e6.rule_projector_call_sites, e6.rule_subspaces_from_indices, helpers_inputs, e2b.rule_taylor, e2b.rule_order_preserving_evals, e2b.rule_key_normalisation,
+    rules=[e6.rule_projector_call_sites, e6.rule_subspaces_from_indices, helpers_inputs, e2b.rule_taylor, e2b.rule_order_preserving_evals, e2b.rule_key_normalisation, e2b.rule_symbol_order,
            e5.rule_total_callbacks, e2c.rule_adjoint_fill, lossless_inputs,
            # `dense, sparse or symbolic values`: the selection closures have one element-wise branch per value type
            e1b.rule_projection_pairs],
@@ -323,7 +325,7 @@ prop(
 
 prop(
     "C19", level="other", selftest=["series"],
-    rules=[e2b.rule_check_finite, e3.rule_typestate, wf_all, runtime_series],
+    rules=[e2b.rule_check_finite, e2b.rule_view_indexing, e3.rule_typestate, wf_all, runtime_series],
     explanation=(
         "numpy equivalence is by construction (the code indexes a real numpy trial array with the user's expression); "
         "decided clauses: _check_finite rejects, for every member of the declared OneItem union, negative and "
@@ -335,7 +337,7 @@ prop(
 prop(
     "C20", level="other", selftest=["block_diagonalization"],
     rules=[e5.rule_guards, e5.rule_h0_block_diagonal, e5.rule_guard_dominance, e5.rule_symbolic_hermiticity,
-           e5.rule_total_callbacks, e7b.rule_shared_eigenvalue_check, diag_solver_real, helpers_rejections],
+           e5.rule_total_callbacks, e7b.rule_shared_eigenvalue_check, diag_solver_real, helpers_rejections, e5.rule_dict_pairing],
     explanation=(
         "Each rejection the property lists is located as a raise whose path condition has exactly the required truth "
         "table over canonical atoms (robust to De-Morgan / nesting / early-return rewrites) and that precedes the "
